@@ -39,7 +39,8 @@ Fixpoint first_items_nonempty (b : dblock) {struct b} : bool :=
   | _ => true
   end.
 
-(* class 5: the note holds a block reference (a paragraph that is one note link) *)
+(* (formerly class 5, F-INLINEREF, repaired: inline actions are no longer offered on references that
+   cannot be inlined) the note holds a block reference *)
 Fixpoint has_block_ref (b : dblock) {struct b} : bool :=
   let fix go (l : list dblock) : bool := match l with [] => false | x :: r => has_block_ref x || go r end in
   let fix goi (l : list (list dblock)) : bool := match l with [] => false | x :: r => go x || goi r end in
@@ -53,7 +54,7 @@ Fixpoint has_block_ref (b : dblock) {struct b} : bool :=
 Definition c3_classes (c : c3case) : list N :=
   match c3_blocks c with
   | Ok bs => flag 1 (forallb item_leads_ok bs) ++ flag 2 (forallb plain_items bs) ++
-             flag 3 (forallb first_items_nonempty bs) ++ flag 5 (negb (existsb has_block_ref bs)) ++
+             flag 3 (forallb first_items_nonempty bs) ++
              flag 6 (negb (c3_crlf c))
   | Panic _ => flag 4 (negb (starts_with "long" (c3_shape c) || starts_with "deep" (c3_shape c) ||
                              starts_with "wide" (c3_shape c)))
@@ -73,7 +74,6 @@ Definition explains (cls g : N) : bool :=
   | 2 => true                            (* corrupted arena: anything afterwards *)
   | 3 => N.eqb g 7 || N.eqb g 8          (* link_at *)
   | 4 => true                            (* too large to dump: stack *)
-  | 5 => N.eqb g 11                      (* resolving the inline actions of a block reference *)
   | 6 => N.eqb g 8                       (* key_range with shifted columns *)
   | _ => false
   end%N.
